@@ -20,3 +20,8 @@ Definition is_nil {A} (l : list A) : bool := match l with [] => true | _ => fals
 Definition loop_safe (r : loop_row) : bool :=
   let '(_, _, _, _, _, shapes, reasons, effects) := r in
   negb (is_nil shapes) && forallb safe_shape shapes && is_nil reasons && is_nil effects.
+
+(* a read of the wall clock, the environment or a random source is harmless only where its value goes nowhere but
+   into a telemetry call *)
+Definition clock_use_safe (c : string * string * string * string * string) : bool :=
+  let '(_, _, _, _, context) := c in String.eqb context "telemetry".
